@@ -129,6 +129,26 @@ def tlc(work, module, cfg, workers=None, timeout=600, env=None, heap='6g', extra
     return res
 
 
+def apalache(work, module, args, timeout=1200):
+    """apalache-mc check <args> <module>.tla in the scratch copy of specs/.  Returns 'ok', 'violation' or raises."""
+    out = work.fresh('apalache')
+    cmd = ['timeout', str(timeout), 'apalache-mc', 'check', '--out-dir=' + out, '--run-dir=' + os.path.join(out, 'run')] + list(args) + [module + '.tla']
+    e = dict(os.environ)
+    e['JVM_ARGS'] = '-Xmx4g -Djava.io.tmpdir=%s' % out
+    t0 = time.time()
+    r = subprocess.run(cmd, cwd=work.specs, env=e, capture_output=True, text=True, errors='replace')
+    txt = r.stdout + r.stderr
+    shutil.rmtree(out, True)
+    if 'The outcome is: NoError' in txt and r.returncode == 0:
+        res = 'ok'
+    elif 'The outcome is: Error' in txt and 'invariant' in txt and 'violated' in txt:
+        res = 'violation'
+    else:
+        raise MachineryError('apalache-mc %s %s did not run to a verdict (rc=%d):\n%s' % (module, ' '.join(args), r.returncode, txt[-3000:]))
+    log('Apalache %s %s: %s, %.1fs' % (module, ' '.join(args), res, time.time() - t0))
+    return dict(module=module, args=' '.join(args), outcome=res, wall_s=round(time.time() - t0, 1))
+
+
 def tlc_tail(res, n=40):
     lines = [x for x in res['out'].splitlines() if not x.startswith('"')]
     return '\n'.join(lines[-n:]) + ('\n' + res['err'][-1500:] if res['err'].strip() else '')
